@@ -120,6 +120,33 @@ fn judge(c: &Case, p: &Probe) -> Judge {
     if !m.payload.is_empty() && js.len() < m.payload.len() && m.payload.len() > 4096 {
         // (a payload that had been serialised would show up in the size)
     }
+    // an object that was serialised once, is edited, and is serialised again: the second document must
+    // describe the object as it is now (and a clone taken after the first serialisation likewise)
+    {
+        let mut edited = m.build();
+        let _ = serde_json::to_string(&edited).map_err(|e| Fail::new("C20/serialize-error", format!("{e}")))?;
+        let mut cl = edited.attributes().clone();
+        edited.attributes_mut().add(DelimiterTag::OperationAttributes, IppAttribute::new("zz-added-after-serialising", IppValue::Integer(7)));
+        if let Some(g) = edited.attributes_mut().groups_mut().first_mut() {
+            let first = g.attributes().keys().next().cloned();
+            if let Some(k) = first {
+                g.attributes_mut().remove(&k);
+            }
+        }
+        cl.add(DelimiterTag::JobAttributes, IppAttribute::new("zz-added-to-the-clone", IppValue::Boolean(true)));
+        let want = canon_of(&edited, false);
+        let j2 = serde_json::to_string(&edited).map_err(|e| Fail::new("C20/serialize-error", format!("{e}")))?;
+        let b2: IppRequestResponse = serde_json::from_str(&j2).map_err(|e| Fail::new("C20/deserialize-error", format!("after an edit: {e}")))?;
+        if canon_of(&b2, false) != want {
+            return Err(Fail::new("C20/content/serialise-edit-serialise", format!("an object serialised once, then edited (an attribute added, one removed) and serialised again deserialises to something else than the edited object: {}", canon_match(&want, &canon_of(&b2, false)).err().unwrap_or_else(|| "structures differ".into()))));
+        }
+        let want_cl = canon_attrs(&cl, false);
+        let b3: IppAttributes = serde_json::to_string(&cl).and_then(|j| serde_json::from_str(&j)).map_err(|e| Fail::new("C20/deserialize-error", format!("clone: {e}")))?;
+        if canon_attrs(&b3, false) != want_cl {
+            return Err(Fail::new("C20/content/serialise-clone-edit-serialise", "a clone taken after the original was serialised, then extended, deserialises to something else than the extended clone".to_string()));
+        }
+        p.extra_eval(2);
+    }
     let mut pl = Vec::new();
     back.into_payload().read_to_end(&mut pl).map_err(|e| Fail::new("C20/payload-read", format!("{e}")))?;
     if !pl.is_empty() {
@@ -295,7 +322,7 @@ fn main() {
             let tier = if args[2] == "quick" { Tier::Quick } else { Tier::Thorough };
             let ctx = Ctx::new("C20", tier, "exploration");
             ctx.enable_traced_pass(4);
-            ctx.set_rule("proptest-generated model messages (domain of C01, utc_dir widened to any char) serialised with serde_json and deserialised (after three truncated copies of the same document have been fed to the deserialiser on the same thread, outcome not asserted; then again through from_value, to_value+from_value, from_slice and from_reader): header, groups, names, values must be equal WITHOUT identifying one-element sets; re-serialising gives the same JSON document (map-order-insensitive); payload reads as empty afterwards; bare IppAttributes and every bare IppValue round-trip too. Non-trivial = contains a raw-octet (Other) value with data, a collection nested >=2, or non-ASCII text/char; distinct by hash of the model message.");
+            ctx.set_rule("proptest-generated model messages (domain of C01, utc_dir widened to any char) serialised with serde_json and deserialised (after three truncated copies of the same document have been fed to the deserialiser on the same thread, outcome not asserted; then again through from_value, to_value+from_value, from_slice and from_reader): header, groups, names, values must be equal WITHOUT identifying one-element sets; re-serialising gives the same JSON document (map-order-insensitive); payload reads as empty afterwards; bare IppAttributes and every bare IppValue round-trip too; an object serialised once, then edited (attribute added, one removed) and serialised again, and a clone extended after the original was serialised, deserialise to the edited objects. Non-trivial = contains a raw-octet (Other) value with data, a collection nested >=2, or non-ASCII text/char; distinct by hash of the model message.");
             ctx.assume("JSON (serde_json) is the carrier format");
             let (shards, per) = tier.pick((16, 6000), (16, 100000));
             run_prop(&ctx, "serde-roundtrip", shards, per, case, judge, |c| mmsg_json(&c.m));
